@@ -118,6 +118,7 @@ def run(ctx, repo):
     ctx.rule('R5', 'every store to highest_cleared_index outside __init__ is guarded by a strict rise of the best (or no clearance yet)')
     ctx.rule('R6', 'from_matrix recognises every plain decimal as a height column (numeric conversion, or automata inclusion for a pattern)')
     ctx.rule('R7', 'observers (to_matrix, place, ranking_key, has_retired, print_ranking) change no state, aliases included')
+    ctx.rule('R8', 'the ranking is recomputed from the cards on every _rank: the sort and the sorter call are unconditional')
     ctx.rule('R4', 'in the tie-for-first branch of _rank the state becomes jumpoff or drawn, never finished/won')
 
     # ---- R1
@@ -327,8 +328,16 @@ def run(ctx, repo):
         raise AnalysisError('_rankj: numbering loop is not `for i, j in enumerate(...)`')
     ivar, jvar = lp.target.elts[0].id, lp.target.elts[1].id
     # previous-jumper / previous-key variables: assigned from jvar / key at the end of the body
-    prev_j = [st.targets[0].id for st in lp.body if isinstance(st, ast.Assign) and isinstance(st.value, ast.Name)
-              and st.value.id == jvar and isinstance(st.targets[0], ast.Name)]
+    def flat_assigns(body):
+        for st in body:
+            if isinstance(st, ast.Assign):
+                for t in st.targets:
+                    if isinstance(t, ast.Tuple) and isinstance(st.value, ast.Tuple) and len(t.elts) == len(st.value.elts):
+                        for a_, b_ in zip(t.elts, st.value.elts):
+                            yield a_, b_
+                    else:
+                        yield t, st.value
+    prev_j = [t.id for t, v in flat_assigns(lp.body) if isinstance(v, ast.Name) and v.id == jvar and isinstance(t, ast.Name)]
     for n in ast.walk(lp):
         if isinstance(n, ast.Assign) and any(isinstance(t, ast.Attribute) and t.attr == '_place' for t in n.targets):
             conds = []
@@ -338,19 +347,91 @@ def run(ctx, repo):
                     conds.append((ast.unparse(p.test), c in p.body))
                 c, p = p, getattr(p, '_parent', None)
             place_vals.append((ast.unparse(n.value), conds, n))
-    want_first = [v for v in place_vals if v[0] == '1']
-    want_copy = [v for v in place_vals if prev_j and v[0] == '%s._place' % prev_j[0]]
-    want_next = [v for v in place_vals if v[0] in ('%s + 1' % ivar, '1 + %s' % ivar)]
-    if len(place_vals) == 3 and want_first and want_copy and want_next \
-            and any((c[0] in ('%s == 0' % ivar, '0 == %s' % ivar, '%s < 1' % ivar) and c[1]) or (c[0] == 'not %s' % ivar and c[1])
-                    or (c[0] == ivar and not c[1]) for c in want_first[0][1]) \
-            and any('==' in c[0] and c[1] for c in want_copy[0][1]) \
-            and any('==' in c[0] and not c[1] for c in want_next[0][1] if c[0] not in ('%s == 0' % ivar, '0 == %s' % ivar)):
-        ctx.ok('R2', 'places: 1 for the first, copied on equal keys, else index+1 (standard competition ranking)')
+    # decided as a table over the complete abstract domain the loop can see: the index (0, 1, 2 stand for first, second, later) and
+    # whether the key equals the previous key (keys are touched only through ==); the stored place is evaluated on each row
+    key_vars = {t.id for t, v in flat_assigns(lp.body) if isinstance(v, ast.Attribute) and v.attr == 'ranking_key' and isinstance(t, ast.Name)}
+    prev_k = {t.id for t, v in flat_assigns(lp.body) if isinstance(t, ast.Name) and (
+        unparse(v) in key_vars or (isinstance(v, ast.Attribute) and v.attr == 'ranking_key'))} - key_vars
+    PREV = ('previous place',)
+
+    class _NoEval(Exception):
+        pass
+
+    def pe(e, env):
+        if isinstance(e, ast.Constant):
+            return e.value
+        if isinstance(e, ast.Name):
+            if e.id == ivar:
+                return env['i']
+            if e.id in prev_k and env['i'] == 0:
+                return None
+            raise _NoEval(unparse(e))
+        if isinstance(e, ast.Attribute) and e.attr == '_place' and isinstance(e.value, ast.Name) and e.value.id in prev_j:
+            return PREV
+        if isinstance(e, ast.UnaryOp) and isinstance(e.op, ast.Not):
+            return not pe(e.operand, env)
+        if isinstance(e, ast.BoolOp):
+            r = None
+            for v in e.values:
+                r = pe(v, env)
+                if (isinstance(e.op, ast.And) and not r) or (isinstance(e.op, ast.Or) and r):
+                    return r
+            return r
+        if isinstance(e, ast.BinOp) and isinstance(e.op, (ast.Add, ast.Sub)):
+            x, y = pe(e.left, env), pe(e.right, env)
+            if isinstance(x, int) and isinstance(y, int):
+                return x + y if isinstance(e.op, ast.Add) else x - y
+            raise _NoEval(unparse(e))
+        if isinstance(e, ast.Compare) and len(e.ops) == 1:
+            l, r_ = e.left, e.comparators[0]
+            names = {unparse(l), unparse(r_)}
+            isk = lambda t: t in key_vars or t.endswith('.ranking_key')
+            if isinstance(e.ops[0], (ast.Eq, ast.NotEq)) and any(isk(t) for t in names) and (names & prev_k or any(
+                    t.split('.')[0] in prev_j and t.endswith('.ranking_key') for t in names)):
+                eq = env['eq']
+                return eq if isinstance(e.ops[0], ast.Eq) else not eq
+            if isinstance(e.ops[0], (ast.Is, ast.IsNot)) and names & prev_k and 'None' in names:
+                isn = env['i'] == 0
+                return isn if isinstance(e.ops[0], ast.Is) else not isn
+            x, y = pe(l, env), pe(r_, env)
+            import operator as _o
+            opf = {ast.Eq: _o.eq, ast.NotEq: _o.ne, ast.Lt: _o.lt, ast.LtE: _o.le, ast.Gt: _o.gt, ast.GtE: _o.ge}.get(type(e.ops[0]))
+            if opf is None or PREV in (x, y):
+                raise _NoEval(unparse(e))
+            return opf(x, y)
+        if isinstance(e, ast.IfExp):
+            return pe(e.body if pe(e.test, env) else e.orelse, env)
+        raise _NoEval(unparse(e))
+
+    def run_body(body, env, out_):
+        for st in body:
+            if isinstance(st, ast.If):
+                run_body(st.body if pe(st.test, env) else st.orelse, env, out_)
+            elif isinstance(st, ast.Assign) and any(isinstance(t, ast.Attribute) and t.attr == '_place' for t in st.targets):
+                out_.append(pe(st.value, env))
+            elif isinstance(st, ast.Assign) and isinstance(st.targets[0], ast.Tuple) and isinstance(st.value, ast.Tuple):
+                for t, v in zip(st.targets[0].elts, st.value.elts):
+                    if isinstance(t, ast.Attribute) and t.attr == '_place':
+                        out_.append(pe(v, env))
+    table, bad_rows = [], []
+    try:
+        for i_ in (0, 1, 2):
+            for eq_ in ((False,) if i_ == 0 else (False, True)):
+                got = []
+                run_body(lp.body, {'i': i_, 'eq': eq_}, got)
+                want = 1 if i_ == 0 else (PREV if eq_ else i_ + 1)
+                table.append((i_, eq_, got))
+                if not got or got[-1] != want:
+                    bad_rows.append(('index %d, key %s the previous one' % (i_, 'equal to' if eq_ else 'different from'), got[-1] if got else None, want))
+    except _NoEval as e_:
+        bad_rows.append(('not evaluable: %s' % e_, None, None))
+    if not bad_rows:
+        ctx.ok('R2', 'places: 1 for the first, copied on equal keys, else index+1 (standard competition ranking), decided on the 5 rows of '
+                     '(index 0/1/2) x (key equal to the previous one or not)')
     else:
         ctx.finding('R2', '%s::HighJumpCompetition._rankj::place numbering' % HJ, HJ, lp.lineno,
-                    'place numbering assigns %s; standard competition ranking needs 1 for the first, the previous place on '
-                    'an equal key, index+1 otherwise' % [(v[0], v[1]) for v in place_vals])
+                    'place numbering is wrong for %s: it assigns %s where standard competition ranking needs %s (1 for the first, the previous '
+                    'place on an equal key, index+1 otherwise)' % bad_rows[0])
     # place property hides unplaced athletes
     pl = J.get('place')
     if pl is None:
@@ -389,6 +470,51 @@ def run(ctx, repo):
                         'with a tie for first standing, _rank can set the state to %s: a competition must not end (finished / won) while two '
                         'athletes share first place; the tie is broken by a jump-off or declared drawn' % sorted(vals - {'jumpoff', 'drawn'}),
                         'all but one of the tied athletes went out by retiring')
+    # ---- R8 every call of _rank works on a freshly sorted order: the sort in the sorter and the sorter call in _rank are unconditional
+    def cond_ancestors(n, fn, harmless=lambda t: False):
+        out_ = []
+        c, p_ = n, getattr(n, '_parent', None)
+        while p_ is not None and p_ is not fn:
+            if isinstance(p_, (ast.If, ast.While)) and c is not p_.test and not harmless(p_.test):
+                out_.append(p_)
+            elif isinstance(p_, ast.IfExp) and c is not p_.test:
+                out_.append(p_)
+            elif isinstance(p_, ast.BoolOp) and c is not p_.values[0]:
+                out_.append(p_)
+            elif isinstance(p_, (ast.For, ast.Try, ast.ExceptHandler, ast.comprehension, ast.Lambda)):
+                out_.append(p_)
+            c, p_ = p_, getattr(p_, '_parent', None)
+        return out_
+
+    sorted_txt = unparse(s.func.value)
+
+    def emptiness(t):
+        # a guard that only skips the sort of an empty / one-element list changes nothing
+        tt = unparse(t)
+        return tt in (sorted_txt, 'len(%s) > 1' % sorted_txt, 'len(%s) >= 2' % sorted_txt, 'len(%s)' % sorted_txt)
+    ca = cond_ancestors(s, rj, emptiness)
+    if ca:
+        ctx.finding('R8', '%s::HighJumpCompetition._rankj::sort is conditional' % HJ, HJ, s.lineno,
+                    'the ranking sort runs only under `%s`: when it is skipped the previous order is kept although a flag that is part of the '
+                    'ranking key (eliminated, the best height) may have changed since' % unparse(getattr(ca[0], 'test', ca[0]))[:80],
+                    'a retirement or pass changes the status component of the key without adding an attempt')
+    else:
+        ctx.ok('R8', '_rankj: the sort is unconditional')
+    sorter_calls = [c for c in ast.walk(rk_fn) if isinstance(c, ast.Call) and isinstance(c.func, ast.Attribute) and c.func.attr == rj.name]
+    if not sorter_calls:
+        ctx.finding('R8', '%s::HighJumpCompetition._rank::does not sort' % HJ, HJ, rk_fn.lineno,
+                    '_rank never calls %s: the places and the tie-for-first test use an order that is not recomputed from the cards' % rj.name)
+    for c in sorter_calls:
+        ca = cond_ancestors(c, rk_fn)
+        if ca:
+            what = ca[0]
+            ctx.finding('R8', '%s::HighJumpCompetition._rank::sorter call is conditional' % HJ, HJ, c.lineno,
+                        '_rank re-sorts only conditionally (`%s`): on the other path it decides places, winner and tie for first on the order '
+                        'left by an earlier call, although the status component of the ranking key (eliminated / retired) or a card may have '
+                        'changed since' % unparse(what)[:90],
+                        'an athlete ranked ahead of an eliminated one retires or passes: no attempt is added but the order changes')
+        else:
+            ctx.ok('R8', '_rank: %s is called unconditionally' % unparse(c))
     # ---- R6 the card import recognises every height column: _looks_like_height accepts every plain decimal ('2', '2.0', '2.00', '1.955')
     llh = Cm.get('_looks_like_height')
     if llh is not None:
